@@ -111,7 +111,7 @@ func (c *Ctx) prelude() {
 	c.decl("fn:str.empty", "(declare-const str.empty Str)")
 	c.strLits[""] = "str.empty"
 	if c.Mode == ArithInt {
-		c.decl("ax:strlen", "(assert (forall ((s Str)) (! (>= (str.len s) 0) :pattern ((str.len s)))))")
+		c.decl("ax:strlen", "(assert (forall ((s Str)) (! (and (>= (str.len s) 0) (<= (str.len s) 281474976710655)) :pattern ((str.len s)))))")
 		c.decl("ax:strempty", "(assert (forall ((s Str)) (! (=> (= (str.len s) 0) (= s str.empty)) :pattern ((str.len s)))))")
 		c.decl("ax:strempty2", "(assert (= (str.len str.empty) 0))")
 		c.decl("ax:strat", "(assert (forall ((s Str) (i Int)) (! (and (<= 0 (str.at s i)) (<= (str.at s i) 255)) :pattern ((str.at s i)))))")
